@@ -3,9 +3,9 @@ recorded traces -> TLC validation against SocketContract + ClientContract (Trace
 from . import lib
 
 
-def run_batch(rep, scripts, module="Trace_Client"):
-    """scripts: list of (sid, proto, script, meta)."""
-    jobs = [(sid, proto, "client", None, sc) for sid, proto, sc, meta in scripts]
+def run_batch(rep, scripts, module="Trace_Client", target="client", cfg=None):
+    """scripts: list of (sid, proto, script, meta); meta may carry "opts" for the harness world."""
+    jobs = [(sid, proto, target, meta.get("opts"), sc) for sid, proto, sc, meta in scripts]
     res = lib.run_scripts(jobs, chunk=4)
     traces, metas = [], {}
     for sid, proto, sc, meta in scripts:
@@ -15,7 +15,7 @@ def run_batch(rep, scripts, module="Trace_Client"):
             rep.machinery.append(f"script {sid}: {err}")
             continue
         traces.append({"id": sid, "proto": proto, "ev": lib.lower_client(tr)})
-    verdicts, stats = lib.validate(module, traces)
+    verdicts, stats = lib.validate(module, traces, cfg=cfg) if cfg else lib.validate(module, traces)
     rep.add_tlc(stats)
     rep.traces += len(traces)
     return verdicts, metas
